@@ -9,13 +9,21 @@
     `dr_exp (−a) = Ad (exp a) · dr_exp a` (Rodrigues algebra, closed branch);
   * `dr_action g v · d = point (M g · hat d · embed v)` for SO3, SE3, Galilei (all g, v, d);
   * `dr_rminus`, `dr_rminus_squarednorm` unfold to `dr_expinv e`, `eᵀ·dr_expinv e`.
-  Not proved here (kept as `…_statement`): the power-series / ODE characterisation of `dr_exp`
-  and the Taylor-branch truncation bounds.
+  * Taylor-branch truncation bounds for the `dr_expinv` coefficient (`SO3.S1invA`, `SE2.drExpinvA`)
+    and the induced entrywise bounds.
+  * SO3, SE2: `dr_exp a = Σ_k (−1)^k ad(a)^k/(k+1)!` (HasSum, closed branch); SO3 also
+    `dr_exp a = ∫₀¹ Ad(exp(−s a)) ds` and `d/dt (t·dr_exp(t a)) = Ad(exp(−t a))`.
+  Not proved here (kept as `…_statement`): the SE3/Galilei/SE_K_3 analogues of the series
+  characterisation (the `calculate_q`/`calculate_r` blocks), and the truncation bounds for
+  `dr_exp` itself (they follow from the `cos_2`/`sin_3` bounds of C02).
 -/
 import SmoothProofs.C04SO3
 import SmoothProofs.C04SE2
 import SmoothProofs.C04SE3
 import SmoothProofs.C04Action
+import SmoothProofs.C04Taylor
+import SmoothProofs.C04Ode
+import SmoothProofs.C04Series
 import Mathlib.Analysis.Calculus.Deriv.Basic
 
 open Lin Scalar
@@ -147,17 +155,104 @@ theorem dr_rminus_squarednorm_def (G : LieModel ℝ) (e : Vec ℝ G.dof) (j : Fi
     (Derivs.dr_rminus_squarednorm G e) j = ∑ l, e l * (G.dr_expinv e) l j := by
   simp only [Derivs.dr_rminus_squarednorm, Vec.of_get, C05Alg.vsum_eq_sum]
 
+/-! ### `dr_exp` is the right Jacobian of `exp`: `J(a) = ∫₀¹ Ad(exp(−s a)) ds` (SO3) -/
+
+/-- entry `(j, r)` of the Rodrigues rotation `exp(−u·â) = I − (sin uθ/θ)·â + ((1−cos uθ)/θ²)·â²` -/
+noncomputable abbrev Rod (a : Vec ℝ 3) (j r : Fin 3) (u : ℝ) : ℝ := C04Ode.Rod a j r u
+
+/-- wherever the code evaluates `exp(−u a)` in its closed branch (`eps2 < u²θ²`), `Rod a · · u` is
+    the model's `Ad (exp (−u a))` -/
+theorem so3_Rod_eq_Ad_exp (a : Vec ℝ 3) (u : ℝ) (h : Scalar.eps2 < sqNorm (vsmul u a)) (j r : Fin 3) :
+    Rod a j r u = (SO3.Ad (SO3.exp (vneg (vsmul u a)))) j r :=
+  C04Ode.Rod_eq_Ad_exp a u h j r
+
+/-- SO3, closed branch: `dr_exp a = ∫₀¹ exp(−s·â) ds` entrywise — the textbook definition of the
+    right Jacobian (equal to `Σ (−1)^k ad(a)^k/(k+1)!`). -/
+theorem so3_drExp_eq_integral (a : Vec ℝ 3) (h : Scalar.eps2 < sqNorm a) (j r : Fin 3) :
+    (SO3.dr_exp a) j r = ∫ s in (0:ℝ)..1, Rod a j r s :=
+  C04Ode.drExp_eq_integral a h j r
+
+/-- SO3: the ODE form on the model itself, `d/du (u·dr_exp(u a))|_{u=t} = Ad(exp(−t a))`, at every `t`
+    whose scaled argument `t a` is in the closed branch. -/
+theorem so3_drExp_ode (a : Vec ℝ 3) (t : ℝ) (h : Scalar.eps2 < sqNorm (vsmul t a)) (j r : Fin 3) :
+    HasDerivAt (fun u => u * (SO3.dr_exp (vsmul u a)) j r)
+      ((SO3.Ad (SO3.exp (vneg (vsmul t a)))) j r) t :=
+  C04Ode.drExp_ode a t h j r
+
+/-- non-vacuity: `a = (1,0,0)`, `t = 1` -/
+example : Scalar.eps2 < sqNorm (vsmul (1:ℝ) (mk3 (1:ℝ) 0 0)) := by
+  have h : sqNorm (vsmul (1:ℝ) (mk3 (1:ℝ) 0 0)) = 1 := by simp [C04Alg.sqNorm3, mk3, vsmul]
+  rw [h, C04SO3.eps2_real]; norm_num
+
+/-- SO3, closed branch: `dr_exp a = Σ_k (−1)^k ad(a)^k/(k+1)!` entrywise (`ad a = â`, matrix powers
+    in Mathlib's `Matrix`), the power-series definition of the right Jacobian. -/
+theorem so3_drExp_eq_series (a : Vec ℝ 3) (h : Scalar.eps2 < sqNorm a) (j r : Fin 3) :
+    HasSum (fun k : ℕ => (-1 : ℝ) ^ k / ((k + 1).factorial : ℝ)
+      * ((Matrix.of (SO3.ad a).get : Matrix (Fin 3) (Fin 3) ℝ) ^ k) j r) ((SO3.dr_exp a) j r) :=
+  C04Series.drExp_hasSum a h j r
+
+/-- SE2, closed branch: the same power series with the SE2 `ad a`. -/
+theorem se2_drExp_eq_series (a : Vec ℝ 3) (h : Scalar.eps2 < a 2 * a 2) (j r : Fin 3) :
+    HasSum (fun k : ℕ => (-1 : ℝ) ^ k / ((k + 1).factorial : ℝ)
+      * ((Matrix.of (SE2.ad a).get : Matrix (Fin 3) (Fin 3) ℝ) ^ k) j r) ((SE2.dr_exp a) j r) :=
+  C04Series.se2_drExp_hasSum a h j r
+
+/-- non-vacuity: `a = (2, 3, 1)` -/
+example : Scalar.eps2 < (mk3 (2:ℝ) 3 1) 2 * (mk3 (2:ℝ) 3 1) 2 := se2Closed_ex.1
+
 /-! ### statements not yet proved (targets of DESIGN.md §C04 kept for later rounds) -/
 
-/-- the ODE characterisation `d/dt (t·J(t a)) = Ad(exp(−t a))` of the right Jacobian (SO3) -/
-def so3_drExp_ode_statement : Prop :=
-  ∀ (a : Vec ℝ 3) (t : ℝ), Scalar.eps2 < sqNorm (vsmul t a) → ∀ i j : Fin 3,
-    HasDerivAt (fun u : ℝ => u * (SO3.dr_exp (vsmul u a)) i j)
-      ((SO3.Ad (SO3.exp (vneg (vsmul t a)))) i j) t
+/-- the SE3 analogue of the series characterisation (Galilei / SE_K_3 likewise); for these groups
+    `dr_exp` is tied here to the SO3 block by `dr_exp·dr_expinv = I` (any `Q`), i.e. the `Q` block
+    (`calculate_q`) itself is not yet identified with the series. -/
+def se3_drExp_series_statement : Prop :=
+  ∀ (a : Vec ℝ 6), Scalar.eps2 < sqNorm (SE3.tw a) → ∀ j r : Fin 6,
+    HasSum (fun k : ℕ => (-1 : ℝ) ^ k / ((k + 1).factorial : ℝ)
+      * ((Matrix.of (SE3.ad a).get : Matrix (Fin 6) (Fin 6) ℝ) ^ k) j r) ((SE3.dr_exp a) j r)
 
-/-- Taylor-branch truncation bound for the coefficient of `calc_S1inv` -/
-def so3_S1invA_taylor_bound_statement : Prop :=
-  ∀ x : ℝ, 0 < x → x < Scalar.eps2 →
-    |SO3.S1invA x - C04SO3.Ainv x| ≤ 1 / 1000000000000
+/-! ### Taylor-branch truncation bounds (series branch vs closed form) -/
+
+/-- the `dr_expinv` coefficient `A(θ) = 1/θ² − (1+cos θ)/(2θ sin θ)` differs from the series
+    `1/12 + θ²/720` used by the code by at most `θ⁴/10000` for `0 < θ ≤ 1/10` (true constant 1/30240). -/
+theorem drExpinv_coefficient_taylor (θ : ℝ) (h0 : 0 < θ) (h1 : θ ≤ 1 / 10) :
+    |(1 / θ ^ 2 - (1 + Real.cos θ) / (2 * θ * Real.sin θ)) - (1 / 12 + θ ^ 2 / 720)|
+      ≤ θ ^ 4 / 10000 :=
+  C04Taylor.Ainv_taylor θ h0 h1
+
+/-- `SO3.S1invA` (argument `x = θ²`): series branch within `x²/10000 ≤ 1e-20` of the closed form. -/
+theorem so3_S1invA_taylor_bound {x : ℝ} (h0 : 0 < x) (h1 : x < Scalar.eps2) :
+    |SO3.S1invA x - C04SO3.Ainv x| ≤ x ^ 2 / 10000 :=
+  C04Taylor.S1invA_series_bound h0 h1
+
+/-- `SE2.drExpinvA`: series branch within `θ⁴/10000` of the closed form (`θ ≠ 0`, `θ² < eps2`). -/
+theorem se2_drExpinvA_taylor_bound {θ : ℝ} (h0 : θ ≠ 0) (h1 : θ * θ < Scalar.eps2) :
+    |SE2.drExpinvA θ (θ * θ) - C04SE2.Ae θ| ≤ θ ^ 4 / 10000 :=
+  C04Taylor.drExpinvA_series_bound h0 h1
+
+/-- non-vacuity: `x = 1e-10`, `θ = 1e-5` are in the series branch -/
+example : (0:ℝ) < 1 / 10000000000 ∧ (1 / 10000000000 : ℝ) < Scalar.eps2 := by
+  rw [C04SO3.eps2_real]; constructor <;> norm_num
+example : (1 / 100000 : ℝ) ≠ 0 ∧ (1 / 100000 : ℝ) * (1 / 100000) < Scalar.eps2 := by
+  rw [C04SO3.eps2_real]; constructor <;> norm_num
+
+/-- entrywise: SO3 `dr_expinv` as computed in the series branch vs the closed form
+    `I + â/2 + A(θ²)·â²` (which is the inverse of the closed-form `dr_exp` wherever `sin θ ≠ 0`). -/
+theorem so3_dr_expinv_taylor_bound (a : Vec ℝ 3) (h0 : 0 < sqNorm a) (h1 : sqNorm a < Scalar.eps2)
+    (i j : Fin 3) :
+    |(SO3.dr_expinv a) i j - (C04Alg.poly2 (SO3.hat a) (1 / 2) (C04SO3.Ainv (sqNorm a))) i j|
+      ≤ sqNorm a ^ 2 / 10000 * |(mmul (SO3.hat a) (SO3.hat a)) i j| :=
+  C04Taylor.so3_dr_expinv_series_bound a h0 h1 i j
+
+theorem se2_dr_expinv_taylor_bound (a : Vec ℝ 3) (h0 : a 2 ≠ 0) (h1 : a 2 * a 2 < Scalar.eps2)
+    (i j : Fin 3) :
+    |(SE2.dr_expinv a) i j - (C04Alg.poly2 (SE2.ad a) (1 / 2) (C04SE2.Ae (a 2))) i j|
+      ≤ (a 2) ^ 4 / 10000 * |(mmul (SE2.ad a) (SE2.ad a)) i j| :=
+  C04Taylor.se2_dr_expinv_series_bound a h0 h1 i j
+
+/-- non-vacuity: `a = (0, 0, 1e-5)` -/
+example : (0:ℝ) < sqNorm (mk3 (0:ℝ) 0 (1 / 100000)) ∧ sqNorm (mk3 (0:ℝ) 0 (1 / 100000)) < Scalar.eps2 := by
+  have h : sqNorm (mk3 (0:ℝ) 0 (1 / 100000)) = 1 / 10000000000 := by
+    simp [C04Alg.sqNorm3, mk3]; norm_num
+  rw [h, C04SO3.eps2_real]; constructor <;> norm_num
 
 end C04
